@@ -98,7 +98,7 @@ pub fn run(rep: &mut Report, tier: &str, seed: u64) {
     std::fs::create_dir_all(&work).expect("work dir");
     for pi in 0..n_pairs {
         let mut r = root.fork(pi as u64);
-        let opts = Opts { fragment: true, fault_pct: if pi % 6 == 5 { 100 } else { 0 }, max_stanzas: 3, allow_print: false, universal: false, probe: false, scoped_heavy: false, keywordish_names: false };
+        let opts = Opts { fragment: true, fault_pct: if pi % 6 == 5 { 100 } else { 0 }, max_stanzas: 3, allow_print: false, universal: false, probe: false, scoped_heavy: false, keywordish_names: false, static_fault: 0 };
         let program = gen_program(&mut r, &pool, &opts);
         let mut tsg = program.text.clone();
         if pi % 7 == 6 {
